@@ -1,6 +1,7 @@
 import Ogorek.Lemmas.RoundTrip
 import Ogorek.Props.C04
 import Ogorek.Lemmas.QuoteInv
+import Ogorek.Generated.IsPrint
 
 /-!
   C03 — Encode then Decode is the identity on canonical values, a normal form otherwise.
@@ -20,26 +21,30 @@ theorem decodeLoop_stop (mc : MCfg) (hook : Hook) (f insn : Nat) (st : DState) (
   rw [decodeLoop]
   simp [readByte, parseArg_46, Rd.pure, popUser, pop, hs, userOK_nm hm, bind, Except.bind, pure, Except.pure]
 
-/-- **C03 (round trip, protocols 1–5).** For every canonical value `v` — None, bool, int64, *big.Int,
-    float64 (any bit pattern, NaN payloads included), string, ByteString, Bytes, []byte, Class, and
-    lists, Tuples, Calls, Refs, builtin maps and Dicts of these nested to any depth (`canon`: payloads
-    below 2^32 / 2^31 bytes; a Call is not one of the bytes / bytearray forms the decoder interprets;
-    the keys of each map / Dict literal are acceptable to the decoder's table and pairwise different
-    for it, `keysOK`) — every protocol 1..5, both StrictUnicode settings (the same on both sides) and
-    both PyDict settings: if `Encode` returns no error, then `Decode` of exactly the bytes it wrote
-    succeeds, consumes all of them, and returns a value that represents `v` (`Rep`: identical in type
-    and content; ByteString comes back as string when StrictUnicode is off; a map comes back as Dict
-    with PyDict on and the other way round; big ints are fresh objects).  The decoder may start from
-    any state (memo and heap left by earlier pickles of the stream).
-    Not covered here (tied by correspondence): protocol 0 (text codecs, float text); `*big.Int` keys
-    of builtin maps (pointer identity); Tuple / Call keys are covered for Dicts only (a builtin map
-    cannot hold them). -/
-theorem C03_roundtrip_bin (ip : IsPrint) (c : ECfg) (cfg : Cfg) (v : GoVal)
-    (hp1 : 1 ≤ c.proto) (hp5 : c.proto ≤ 5) (hsu : cfg.su = c.su)
-    (hc : canon cfg v = true) (he : (encodeTop ip c none v).err = none) (st0 : DState) :
+/-- **C03 (round trip, protocols 0–5).** For every canonical value `v` — None, bool, int64, *big.Int,
+    float64, string, ByteString, Bytes, []byte, Class, and lists, Tuples, Calls, Refs, builtin maps and
+    Dicts of these nested to any depth (`canon`: payloads below 2^32 / 2^31 bytes; a Call is not one of
+    the bytes / bytearray forms the decoder interprets; the keys of each map / Dict literal are
+    acceptable to the decoder's table and pairwise different for it, `keysOK`) — every protocol 0..5,
+    both StrictUnicode settings (the same on both sides) and both PyDict settings: if `Encode` returns
+    no error (i.e. none of the three documented limitations applies), then `Decode` of exactly the bytes
+    it wrote succeeds, consumes all of them, and returns a value that represents `v` (`Rep`: identical
+    in type and content; ByteString comes back as string when StrictUnicode is off; a map comes back as
+    Dict with PyDict on and the other way round; big ints are fresh objects).  The decoder may start
+    from any state (memo and heap left by earlier pickles of the stream).
+    Hypotheses besides `canon`: the printability table does not call LF printable (a regenerated fact
+    about strconv.IsPrint); and, at protocol 0 only, `FloatTextOK f` for each float64 in `v`: its `%g`
+    text has no newline and ParseFloat reads it back as the same float (strconv's shortest-round-trip
+    property, not proved here — it fails by design only for NaNs with a payload, which `FNaN` cannot
+    carry). Everything else at protocol 0 — both text codecs in particular — is proved.
+    Not covered (tied by correspondence): `*big.Int` keys of builtin maps (pointer identity); Tuple /
+    Call keys are covered for Dicts only (a builtin map cannot hold them). -/
+theorem C03_roundtrip (ip : IsPrint) (hip : ip 10 = false) (c : ECfg) (cfg : Cfg) (v : GoVal)
+    (hp0 : 0 ≤ c.proto) (hp5 : c.proto ≤ 5) (hsu : cfg.su = c.su)
+    (hc : canon cfg v = true) (hf : FloatsOK c (floatsOf v)) (he : (encodeTop ip c none v).err = none) (st0 : DState) :
     ∃ r st', decode (goCfg cfg) none st0 (flat (encodeTop ip c none v)) = (.ok r, st', []) ∧
       Rep (goCfg cfg) st'.heap r v := by
-  have hrange : (0 ≤ c.proto ∧ c.proto ≤ 5) := ⟨by omega, hp5⟩
+  have hrange : (0 ≤ c.proto ∧ c.proto ≤ 5) := ⟨hp0, hp5⟩
   have hdr_err : (if c.proto ≥ 2 then emit [0x80, UInt8.ofNat c.proto.toNat] else Out.nil).err = none := by
     split <;> rfl
   have etop : encodeTop ip c none v =
@@ -48,7 +53,7 @@ theorem C03_roundtrip_bin (ip : IsPrint) (c : ECfg) (cfg : Cfg) (v : GoVal)
   rw [etop] at he ⊢
   obtain ⟨h12, _⟩ := seq_err_none he
   obtain ⟨_, hev⟩ := seq_err_none h12
-  obtain ⟨is, hpar, hrun⟩ := rt_val (mc := goCfg cfg) ip (by omega) hsu rfl v hc hev
+  obtain ⟨is, hpar, hrun⟩ := rt_val (mc := goCfg cfg) ip hip hsu rfl v hc hf hev
   rw [flat_seq _ _ h12, flat_seq _ _ hdr_err, flat_emit]
   unfold decode
   by_cases h2 : c.proto ≥ 2
@@ -79,7 +84,7 @@ theorem C03_roundtrip_bin (ip : IsPrint) (c : ECfg) (cfg : Cfg) (v : GoVal)
     rw [e0, hstep, decodeLoop_run (goCfg cfg) none is (flat (enc ip c v)) (0 + 1) st1 st2 [46] (F + 1) hpar e2]
     rw [decodeLoop_stop (goCfg cfg) none F _ st2 r st1.stack [] hs2 hrep.not_mark]
     exact ⟨r, _, rfl, hrep⟩
-  · -- protocol 1: no header
+  · -- protocols 0 and 1: no header
     simp only [h2, if_false, flat, Out.nil, List.flatten_nil, List.nil_append]
     have hpo : ProtoOK c { st0 with stack := [], proto := 0 } := by
       simp only [ProtoOK, pybuiltinModule, pybuiltinModuleE]
@@ -100,6 +105,14 @@ theorem C03_roundtrip_bin (ip : IsPrint) (c : ECfg) (cfg : Cfg) (v : GoVal)
 end Ogorek
 
 namespace Ogorek
+
+/-- The same from protocol 1 on, where no text form is used: no hypothesis about floats at all. -/
+theorem C03_roundtrip_bin (ip : IsPrint) (hip : ip 10 = false) (c : ECfg) (cfg : Cfg) (v : GoVal)
+    (hp1 : 1 ≤ c.proto) (hp5 : c.proto ≤ 5) (hsu : cfg.su = c.su)
+    (hc : canon cfg v = true) (he : (encodeTop ip c none v).err = none) (st0 : DState) :
+    ∃ r st', decode (goCfg cfg) none st0 (flat (encodeTop ip c none v)) = (.ok r, st', []) ∧
+      Rep (goCfg cfg) st'.heap r v :=
+  C03_roundtrip ip hip c cfg v (by omega) hp5 hsu hc (fun _ _ => Or.inl hp1) he st0
 
 /-- Non-vacuity: a nested value with a Dict keyed by an int, a tuple holding a big int and a NaN, and a
     string meets the theorem's hypotheses (PyDict on), and so does a builtin map (PyDict off). -/
@@ -122,16 +135,23 @@ namespace Ogorek
     `pydecodeStringEscape` are inverse: `pyquote_inv`; the quoted text holds no newline: `pyquote_no_lf`.) -/
 theorem C03_string_p0 (ip : IsPrint) (hip : ip 10 = false) (c : ECfg) (hp : ¬ c.proto ≥ 1) (s t : Bytes) :
     parseInsn (flat (encodeByteString ip c s) ++ t) = .ok (.pushByteString s, t) := by
-  simp only [encodeByteString, hp, if_false, flat_emit]
-  have hl := pyquote_no_lf ip hip s
-  have e : (83 :: pyquote ip s ++ [10]) ++ t = 83 :: (pyquote ip s ++ 10 :: t) := by simp
-  rw [e]
-  simp only [parseInsn, Rd.bind, readByte, parseArg_83, Rd.mapE, readLine_line _ _ hl]
-  have hq : parseStringArg (pyquote ip s) = .ok s := by
-    unfold parseStringArg pyquote
-    have hlen : ¬ ((34 :: (pyquoteAux ip s.length s ++ [34])).length < 2) := by simp
-    simp only [hlen, if_false]
-    simp [pyquote_inv ip s]
-  simp [hq, Rd.pure, Functor.map, Except.map]
+  obtain ⟨b1, b2, e, _, hpi, hr⟩ := parses_bytestring_txt ip hip c s hp
+  simp [Parses] at hr; subst hr
+  simp only [List.append_nil] at e
+  rw [e]; exact hpi t
+
+/-- **C03 (UNICODE text form, protocol 0).** Every string the encoder accepts (valid UTF-8) is read back
+    from `V…\n` exactly (`rue_inv`, `rue_no_lf`). -/
+theorem C03_unicode_p0 (c : ECfg) (hp : ¬ c.proto ≥ 1) (s t : Bytes) (he : (encodeUnicode c s).err = none) :
+    parseInsn (flat (encodeUnicode c s) ++ t) = .ok (.pushStr s, t) := by
+  obtain ⟨b1, b2, e, _, hpi, hr⟩ := parses_unicode_txt c s hp he
+  simp [Parses] at hr; subst hr
+  simp only [List.append_nil] at e
+  rw [e]; exact hpi t
+
+set_option maxRecDepth 100000 in
+/-- The hypothesis about the printability table holds of the table regenerated from the toolchain's
+    `strconv.IsPrint` on every run: LF is not printable. -/
+theorem C03_isprint_lf : Generated.isPrint 10 = false := by decide
 
 end Ogorek
